@@ -33,7 +33,7 @@ ASSUMPTIONS = [
     "pow bases are generated reference-positive; denominators are r, positive constants or 1+e^2",
 ]
 REQUIRED = {"mod:sum": 20, "mod:product": 20, "mod:pow": 10, "mod:trans": 20, "mod:spline": 10,
-            "custom_calls_custom": 8, "has_if": 8, "has_pymath": 8, "has_as_call": 8, "table_leaf": 10, "sibling:differs": 30, "api:shared_operand:sum": 8,
+            "custom_calls_custom": 8, "has_if": 8, "has_pymath": 8, "has_as_call": 8, "table_leaf": 10, "sibling:differs": 30, "trans:argument_at_or_below_zero": 5, "api:shared_operand:sum": 8,
             "api:shared_operand:product": 8}
 
 
@@ -46,9 +46,22 @@ def _style():
 
 @st.composite
 def _case(draw, depth, feature=None):
-    customs = draw(gen.custom_forms(3, 2, last_feature=feature))
+    customs = draw(gen.custom_forms(3, 2, last_feature=(None if feature == "negative_shift" else feature)))
     tables = draw(gen.table_forms(2, 12))
     pd = draw(gen.potdef(depth, customs, tables, max_ranges=4))
+    if feature == "negative_shift":
+        # trans(f, as.constant X) with X < 0: below r = -X the argument r + X is not positive, where a definition
+        # written without a range marker does not act (C08) - whatever f would give there
+        feature = None
+        x = draw(st.sampled_from([-0.5, -1, -1.5, -2.5, -3]))
+        inner = draw(st.one_of(gen.potdef(0, [], [], max_ranges=2, leaf_names=gen.REGULAR), gen.potdef(1, [], [], max_ranges=1, leaf_names=gen.REGULAR,
+                                                                                                 allow_spline=False, allow_pow=False)))
+        t = {"k": "mod", "m": "trans", "args": [inner], "x": x}
+        wrap = draw(st.sampled_from(["bare", "sum", "ranged"]))
+        if wrap == "sum":
+            t = {"k": "mod", "m": "sum", "args": [{"ranges": [{"m": None, "s": None, "body": t}]},
+                                                  {"ranges": [{"m": None, "s": None, "body": {"k": "form", "name": "constant", "p": [0.5]}}]}]}
+        pd = {"ranges": [{"m": (">=" if wrap == "ranged" else None), "s": (0 if wrap == "ranged" else None), "body": t}]}
     if feature is not None:
         # the definition must use the form that carries the stratum's construct
         f = customs[-1]
@@ -64,7 +77,12 @@ def _case(draw, depth, feature=None):
     for rg in pd["ranges"] + sib["ranges"]:
         if rg["m"] is not None:
             rs.extend([float(rg["s"]) + 0.125, float(rg["s"])])
-    rs = [r for r in rs if r > 0][:12]
+    # separations at which an argument of trans() is evaluated at or below 0 (negative shifts): r + X <= 0
+    neg = []
+    for b in model.walk_simple(pd):
+        if b["k"] == "mod" and b["m"] == "trans" and b.get("x", 0) < 0:
+            neg.extend([-0.5 * b["x"], -0.9 * b["x"], -1.0 * b["x"]])
+    rs = [r for r in neg[:6] + rs if r > 0][:15]
     styles = [draw(_style()), draw(_style())]
     order = draw(st.lists(st.floats(0, 1), min_size=8, max_size=8))
     return {"env": {"custom": customs, "table": tables}, "pd": pd, "sibling": sib, "rs": rs, "styles": styles, "order": order}
@@ -76,6 +94,7 @@ def strategy(tier):
 
 def strata(tier):
     out = [("plain:depth%d" % d, _case(d), w) for d, w in ((1, 2), (2, 3), (3, 2))]
+    out.append(("negative_shift", _case(1, "negative_shift"), 1))
     for feat in gen.FEATURES:
         out.append(("formula:" + feat, st.one_of(_case(1, feat), _case(2, feat)), 2))
     return out
@@ -145,6 +164,8 @@ def check_case(case):
     pd, env, rs = case["pd"], case["env"], case["rs"]
     v = []
     cls = ["depth=%d" % model.depth(pd)]
+    if any(b["k"] == "mod" and b["m"] == "trans" and b.get("x", 0) < 0 and any(0 < r <= -b["x"] for r in rs) for b in model.walk_simple(pd)):
+        cls.append("trans:argument_at_or_below_zero")
     mods = model.modifiers_used(pd)
     cls.extend("mod:" + m for m in mods)
     used = _used_customs(case)
